@@ -272,6 +272,11 @@ theorem c09_resolve_matches_numpy (r : SliceRange) (n : Nat) (ht : r.step > 0) :
       else none :=
   resolve_pos r n ht
 
+/-- **C09.T3a'** `SliceRange::steps` is CPython's element count, both step signs. -/
+theorem c09_steps_matches_numpy (r : SliceRange) (n : Nat) (h0 : r.step ≠ 0) :
+    r.steps n = pyCount r.start r.stop r.step n :=
+  steps_eq_pyCount r n h0
+
 /-- **C09.T3b** `index_range` / `IndexRange::steps` / the index iterator, positive step: never
 fails; the indices are exactly `a[start:stop:step]`'s and `steps` is their number. -/
 theorem c09_index_range_pos_matches_numpy (r : SliceRange) (n : Nat) (ht : r.step > 0) :
